@@ -351,3 +351,68 @@ spec("C09", plan=plan_c09,
           "optional, or a global failure was raised, or the formalism backtracked over consumed input; distinct = (grammar, input, script).",
      assumptions=COMMON_ASSUME + ["reference model + desugaring table (vf/gen.py expand()) transcribed from doc/Rule-Reference.md",
                                   "if_then chains read as nested if_then_else ending in failure (header + contrib_if_then.cpp)"])
+
+# ---------------------------------------------------------------------------- C02
+ZOO_GROUPS = 9
+
+
+def zoo_targets():
+    return [Target("c02_zoo%d" % g, "targets/c02_zoo.cpp", mode="o0", defs=("ZOO_GROUP=%d" % g,)) for g in range(ZOO_GROUPS)]
+
+
+def plan_c02(tier, seed, workdir, case):
+    if case is not None:
+        if case.get("kind") == "zoo":
+            t = zoo_targets()[int(case["group"])]
+            return [Run(t, args=["--prop", "C02"])]
+        return replay_corpus_plan("C02", workdir, case, extra_includes=C09_INCLUDES)
+    import random
+    rnd = random.Random(seed * 13 + 5)
+    runs = [Run(t, args=["--prop", "C02"]) for t in zoo_targets()]
+    # every library combinator entered with `required` while its children behave adversarially
+    shapes = in_contexts(conv_shapes(bounds=(0, 1, 2, 3)) + try_shapes(), contexts=("sor", "star", "bare"))
+    shapes += slot_shapes(CORE_OPS, CORE_OPS, contexts=("sor", "bare"))
+    for g in shapes:
+        if rnd.random() < 0.5:
+            attach_void_actions(g, rnd)
+    for t in write_tus(workdir, "c02s", shapes, 16, 1, C09_INCLUDES):
+        runs.append(Run(t, args=["--prop", "C02", "--rc", "400" if tier == "quick" else "5000"]))
+    n = 60 if tier == "quick" else 800
+    G = gen.Gen(seed * 1000 + 23, ops=CORE_OPS + CONV_OPS, max_depth=3 if tier == "quick" else 4)
+    gs = []
+    for _ in range(n):
+        g, rej = G.grammar()
+        if rnd.random() < 0.5:
+            attach_void_actions(g, rnd)
+        gs.append(g)
+    for t in write_tus(workdir, "c02c", gs, 10 if tier == "quick" else 25, 1, C09_INCLUDES):
+        runs.append(Run(t, args=["--prop", "C02"]))
+    return runs
+
+
+def try_shapes():
+    N = gen.N
+    S = lambda k: N("slot", k=k)
+    out = []
+    for o in gen.CATCH_KIND:
+        out.append(N(o, [S(0)]))
+        if o.endswith("return_false"):
+            out.append(N(o, [S(0), S(1)]))
+            out.append(N(o, [N("seq", [S(0), N("must", [S(1)])])]))
+    out.append(N("enable", [S(0), S(1)]))
+    out.append(N("disable", [S(0), S(1)]))
+    return out
+
+
+spec("C02", plan=plan_c02,
+     rule="every rule invocation of every run is observed through a control whose match() wraps normal<Rule>::match: (a) rule zoo - "
+          "integer family, raw_string (with/without content rules, two policies), rep_one_min_max, predicates, http chunk rules, "
+          "istring/string/bytes, eol/eolf under five policies, identifier/keyword/shebang, utf8/16/32 and uintN rules, each bare and inside "
+          "sor<R,any>, opt, not_at, at, seq<R,eof>, star, with no action / apply / apply0 attached to the rule, eager and lazy, on ALL "
+          "strings up to length 4..9 over a rule-specific alphabet plus boundary numerals and chunked bodies; (b) every core/convenience/"
+          "try_catch combinator over adversarial slots entered under rewind_mode::required (sor non-last, star body, top level), rapidcheck "
+          "scripts; (c) random mixed grammars on all short inputs.  Oracle: invariant per invocation - returned false under required => "
+          "pointer, byte, line, column unchanged; at/not_at never move; success never moves backwards.  Non-trivial: an invocation returned "
+          "false under required after the cursor had moved during the attempt (seen through nested frames or the guarded bump hook); "
+          "distinct = (rule or grammar, input, script).",
+     assumptions=COMMON_ASSUME + ["the guarded bump hook (TAO_PEGTL_VERIF) is only used to count non-trivial cases, not to decide"])
